@@ -1,4 +1,5 @@
 mod alphabet;
+mod c14;
 mod checks;
 mod codecx;
 mod enc;
